@@ -68,7 +68,13 @@ def eval_snapshot(ctx, case):
                 t_exact_knot = j
         else:
             j = q['at'][1] % (len(ts) - 1)
-            t = ts[j] + (ts[j + 1] - ts[j]) * q['at'][2]
+            if q['at'][0] == 'near':
+                # a fraction of a microsecond after a recorded instant: still between two instants
+                t = ts[j] + q['at'][2]
+                if not ts[j] < t < ts[j + 1]:
+                    continue
+            else:
+                t = ts[j] + (ts[j + 1] - ts[j]) * q['at'][2]
             u = q['at'][3]
             tq = U.Time(float(F(t) / SI['Time'][u]), u)
             t = sim.qsi(tq)
@@ -211,10 +217,16 @@ def gen_case(rng):
         # element names are free text: dots, several words, names that share a prefix up to a dot
         for k, e in enumerate(spec['elems']):
             e['name'] = rng.choice([f'stage {k // 2 + 1}.{k % 2 + 1}', f'shaft.{k}.out', f'gear {k} (z = {e.get("z", 0)}, v1.{k})'])
+    if rng.random() < 0.5:
+        # a controller changes the duty cycle from one instant to the next (the 'pwm' column is interpolated like the others)
+        spec['rules'] = gen.const_rules(rng, 8 * dt, random_units=False) or None
     queries = []
     for _ in range(rng.randint(4, 10)):
-        if rng.random() < 0.5:
+        r0 = rng.random()
+        if r0 < 0.45:
             at = ['knot', rng.randrange(100), rng.choice([None, None, 'ms', 'min', 'hour', 'sec'])]
+        elif r0 < 0.6:
+            at = ['near', rng.randrange(100), rng.choice([2.5e-7, 6e-7, 9e-7, 3e-6]), rng.choice(['sec', 'ms'])]
         else:
             at = ['between', rng.randrange(100), rng.uniform(0.05, 0.95), rng.choice(['sec', 'ms', 'min', 'hour'])]
         r = rng.random()
